@@ -18,10 +18,11 @@ LOAD_MODEL = {"composeinfo": "load_ci", "images": "load_images", "rpms": "load_r
 
 def run(chk):
     chk.build(["Props/C07.vo"])
+    deeper = bool(core.hand_models_changed(chk))
     rng = core.Rng(chk.seed * 7919 + 7)
     R = S.reflect()
     for kind in S.KINDS:
-        contents = [{"kind": kind, "content": S.gen_content(rng, kind, R)} for _ in range(N[chk.tier])]
+        contents = [{"kind": kind, "content": S.gen_content(rng, kind, R)} for _ in range(N[chk.tier] * (5 if deeper else 1))]
         ir = core.ImplRunner("docs_corrupt", fn="impl_valid_doc", per_case_timeout=20.0)
         try:
             docs = ir.run(contents)
@@ -78,7 +79,7 @@ def run(chk):
         chk.samples.append({"suite": "docs_corrupt:" + kind, "what": cases[1]["what"] if len(cases) > 1 else None,
                             "impl": str(ires[1])[:200] if len(ires) > 1 else None})
     # ---- treeinfo: corruptions at the text level
-    contents = [{"content": DT.gen_treeinfo(rng, R)} for _ in range(N[chk.tier])]
+    contents = [{"content": DT.gen_treeinfo(rng, R)} for _ in range(N[chk.tier] * (5 if deeper else 1))]
     ir = core.ImplRunner("docs_corrupt", fn="impl_valid_treeinfo", per_case_timeout=20.0)
     try:
         tables = ir.run(contents)
